@@ -88,6 +88,8 @@ def run_gen(case, R):
     for g in m.get('generators', []):
         if g['time']: R.label('gentable:%d%s' % (len(g['time']), 'E' if g['enthalpy'] else ''))
     R.label('incons:%d' % len(m['param']['default_incons']))
+    if any(v is None for v in m['param']['default_incons']) or any(v is None for r in (m.get('incon') or []) + (m.get('indom') or []) for v in r['vars']):
+        R.label('absent-value-inside-a-primary-variable-record')
     _dt = m['param'].get('const_timestep') or 0
     if _dt < 0: R.label('timestep-table:%s' % ('last-record-partly-or-not-used' if len(m['param']['timestep']) <= 8 * (int(-_dt) - 1) else 'all-records-used'))
     opt = [k for k in secs if k not in ('PARAM', 'ELEME', 'CONNE', 'SIMUL')]
